@@ -504,6 +504,7 @@ func extractCFilters(l *leanFile, f *ast.File, shape map[string]any) {
 		strings.Contains(body, "return filterQuery.targetFilter, nil")
 	l.def("getCFilterReturnsTargetOrFails", "Bool", lbool(guard), "after the query GetCFilter returns targetFilter or ErrFilterFetchFailed")
 	shape["getCFilterReturnsTargetOrFails"] = guard
+	filterStoreFacts(l, shape)
 }
 
 func itoa(n int) string { return fmtInt(n) }
